@@ -129,7 +129,8 @@ def plan(prop, tier):
             jobs = [Job("printed-mini", "c", ["txt", "--mode", "printed", "--family", "mini", "--tm", "vary", "--inputs", "3"] + pa, NPROC),
                     Job("printed-q", "c", ["txt", "--mode", "printed", "--family", "q", "--tm", "u0", "--inputs", "2", "--varstride", "16" if q else "4"] + pa, NPROC),
                     Job("mutations", "c-asan", ["txt", "--mode", "mutations", "--inputs", "2"] + pa, NPROC),
-                    Job("bytes", "c", ["txt", "--mode", "bytes", "--len", "4" if q else "5"] + pa, NPROC)]
+                    Job("bytes", "c", ["txt", "--mode", "bytes", "--len", "4" if q else "5"] + pa, NPROC),
+                    Job("termdecl", "c", ["txt", "--mode", "termdecl", "--k", "3" if q else "4"] + pa, NPROC)]
             if not q:
                 jobs += [Job("printed-qe", "c", ["txt", "--mode", "printed", "--family", "qe", "--tm", "u0", "--inputs", "2", "--varstride", "8"] + pa, NPROC),
                          Job("printed-q3", "c", ["txt", "--mode", "printed", "--family", "q3", "--tm", "vary", "--inputs", "2", "--varstride", "16"] + pa, NPROC)]
